@@ -43,7 +43,7 @@ func NewLongString(id *token.Token) String {
 	s := luastrings.NormalizeNewLines(id.Lit)
 	idx := bytes.IndexByte(s[1:], '[') + 2
 	contents := s[idx : len(s)-idx]
-	if contents[0] == '\n' {
+	if len(contents) > 0 && contents[0] == '\n' {
 		contents = contents[1:]
 	}
 	return String{
